@@ -9,7 +9,7 @@ E == TraceLog[l]
 TInit == Init /\ l = 1 /\ TLCSet(7, 0)
 TCall == /\ l <= Len(TraceLog) /\ E.ev = "Call" /\ l' = l + 1
          /\ E.reply = Reply(E.in)
-         /\ phase' = "done" /\ snap' = E.in.snap /\ input' = E.in /\ hist' = <<>>
+         /\ phase' = "done" /\ snap' = E.in.snap /\ input' = E.in /\ hist' = <<>> /\ run' = <<>>
 Consumed == TLCSet(7, IF TLCGet(7) < l THEN l ELSE TLCGet(7))
 TNext == TCall /\ Consumed
 TSpec == TInit /\ [][TNext]_tvars
